@@ -215,7 +215,7 @@ Section Level.
   Definition Post (pre : list N) (s : st) (own : ownmap) (t : N) (s' : st) (err : N) (own' : ownmap) : Prop :=
     Inv s' A T own' /\ same_env s s' /\
     (err = 0 \/ err = E_ALLOC) /\
-    (exists n, orc s' = skipn n (orc s) /\
+    (exists n, orc s' = skipn n (orc s) /\ (n <= 3 - length pre)%nat /\
        forall f, own' f = own f \/ (own f = None /\ In f (firstn n (orc s)) /\ f <> 0 /\ under pre (own' f))) /\
     (forall f i, ~ under pre (own' f) -> ent s' f i = ent s f i) /\
     (forall j, j <> ix (length pre) -> ent s' t j = ent s t j) /\
@@ -226,7 +226,9 @@ Section Level.
     (forall f q i, own f = None -> own' f = Some q -> ent s' f i <> 0 -> exists j, q ++ [i] = firstn j (ixs pg)) /\
     (* entries of existing tables off the page's path are untouched; so are present upper-level entries *)
     (forall f p i, own f = Some p -> p ++ [i] <> firstn (S (length p)) (ixs pg) -> ent s' f i = ent s f i) /\
-    (forall f p i, own f = Some p -> (length p < 3)%nat -> hw_P (ent s f i) = true -> ent s' f i = ent s f i).
+    (forall f p i, own f = Some p -> (length p < 3)%nat -> hw_P (ent s f i) = true -> ent s' f i = ent s f i) /\
+    (* with enough frames in the oracle the walk succeeds *)
+    ((3 - length pre <= length (orc s))%nat -> Forall (fun x => x <> 0) (firstn (3 - length pre) (orc s)) -> err = 0).
 
   (** what [Pre] gives about the current table *)
   Lemma pre_table pre s own t :
@@ -294,7 +296,7 @@ Section Level.
     { intros f Hne j. rewrite He. destruct (N.eqb_spec f t); [congruence|reflexivity]. }
     pose proof (inv_wf _ _ _ _ HI) as W.
     unfold Post. rewrite Hl.
-    split; [|split; [|split; [|split; [|split; [|split; [|split; [|split; [|split; [|split; [|split; [|split]]]]]]]]]]].
+    split; [|split; [|split; [|split; [|split; [|split; [|split; [|split; [|split; [|split; [|split; [|split; [|split]]]]]]]]]]]].
     - apply (Inv_ent_eq s s' A T own HI); try reflexivity.
       intros f j [-> | [-> | (p & Hop & Hlp)]]; apply Hnt.
       + destruct (inv_A _ _ _ _ HI) as [HA | HA]; intros E.
@@ -304,7 +306,7 @@ Section Level.
       + intros E. rewrite E, Ho in Hop. inversion Hop as [E2]. rewrite <- E2 in Hlp. lia.
     - repeat split.
     - left; reflexivity.
-    - exists 0%nat. split; [reflexivity|]. intros f. left. reflexivity.
+    - exists 0%nat. split; [reflexivity|]. split; [lia|]. intros f. left. reflexivity.
     - intros f i Hu. apply Hnt. intros E. apply Hu. rewrite E, Ho. apply under_self.
     - intros j Hj. rewrite He. rewrite N.eqb_refl. cbn [andb]. destruct (N.eqb_spec j (ix 3)); [congruence|reflexivity].
     - intros _. change (skipn 3 (ixs pg)) with [ix 3]. rewrite look_one.
@@ -322,6 +324,7 @@ Section Level.
       destruct (N.eqb_spec f t) as [Eft|]; [|reflexivity]. destruct (N.eqb_spec i (ix 3)) as [Ei|]; [|reflexivity].
       exfalso. apply Hoff. rewrite Eft, Ho in Hp0. inversion Hp0 as [Ep]. rewrite <- Ep, Ei, Hl. exact Hsn.
     - intros f p0 i Hp0 Hlp _. apply Hnt. intros E. rewrite E, Ho in Hp0. inversion Hp0 as [Ep]. rewrite <- Ep in Hlp. lia.
+    - intros _ _. reflexivity.
   Qed.
 
   Lemma skipn_ix k : (k <= 3)%nat -> skipn k (ixs pg) = ix k :: skipn (S k) (ixs pg).
@@ -331,19 +334,21 @@ Section Level.
 
   Lemma Post_fail pre s own t s1 :
     Inv s1 A T own -> same_env s s1 -> (forall f j, ent s1 f j = ent s f j) ->
-    (exists n, orc s1 = skipn n (orc s)) -> flog s1 = flog s ->
+    (exists n, orc s1 = skipn n (orc s) /\ (n <= 3 - length pre)%nat) -> flog s1 = flog s ->
+    ((3 - length pre <= length (orc s))%nat -> Forall (fun x => x <> 0) (firstn (3 - length pre) (orc s)) -> False) ->
     Post pre s own t s1 E_ALLOC own.
   Proof. clear Hva.
-    intros HI Hse He (n & Hn) Hfl. unfold Post.
+    intros HI Hse He (n & Hn & Hnb) Hfl Hen. unfold Post.
     destruct Hse as (E1 & E2 & Hrest).
     split; [exact HI|]. split; [repeat split; tauto|]. split; [right; reflexivity|].
-    split; [exists n; split; [exact Hn | intros f; left; reflexivity]|].
+    split; [exists n; split; [exact Hn | split; [exact Hnb | intros f; left; reflexivity]]|].
     split; [intros; apply He|]. split; [intros; apply He|].
     split; [intros H; discriminate|].
     split; [intros; unfold lookP; rewrite (look_ext s s1) by assumption; reflexivity|].
     split; [intros H; discriminate|]. split; [intros _; exact Hfl|].
     split; [intros f q i H1 H2; congruence|].
-    split; intros; apply He.
+    split; [intros; apply He|]. split; [intros; apply He|].
+    intros H1 H2. exfalso. exact (Hen H1 H2).
   Qed.
 
   (** a level above the last: descend, allocating and clearing the next table if it is missing *)
@@ -390,7 +395,7 @@ Section Level.
       destruct (IH s own c) as (s' & err & own' & Hrun & HQ).
       { split; [exact HI|]. split; [exact Hfc|]. split; [exact Hpre1 | exact H511]. }
       exists s', err, own'. rewrite Hnext. split; [exact Hrun|].
-      destruct HQ as (QI & Qenv & Qerr & (n & Qn & Qown) & Qfr & Qt & Qlook & Qoth & Qf1 & Qf2 & Qnew & Qoff & Qpres).
+      destruct HQ as (QI & Qenv & Qerr & (n & Qn & Qnb & Qown) & Qfr & Qt & Qlook & Qoth & Qf1 & Qf2 & Qnew & Qoff & Qpres & Qen).
       assert (Hown't: own' t = Some pre).
       { destruct (Qown t) as [E | (E & _)]; [rewrite E; exact Ho | rewrite Ho in E; discriminate]. }
       assert (Htfix: forall j, ent s' t j = ent s t j).
@@ -399,7 +404,8 @@ Section Level.
       unfold Post.
       split; [exact QI|]. split; [exact Qenv|]. split; [exact Qerr|].
       split.
-      { exists n. split; [exact Qn|]. intros f. destruct (Qown f) as [E | (E1 & E2 & E3 & E4)]; [left; exact E | right].
+      { exists n. split; [exact Qn|]. split; [rewrite Hlen1 in Qnb; lia|].
+        intros f. destruct (Qown f) as [E | (E1 & E2 & E3 & E4)]; [left; exact E | right].
         repeat split; try assumption. eapply under_app; exact E4. }
       split.
       { intros f j Hu. apply Qfr. intros Hu'. apply Hu. eapply under_app; exact Hu'. }
@@ -441,18 +447,30 @@ Section Level.
             * rewrite <- app_assoc. exact Hhd'. }
           rewrite EQ. reflexivity. }
       split; [exact Qf1|]. split; [exact Qf2|].
-      split; [exact Qnew|]. split; [exact Qoff | exact Qpres].
+      split; [exact Qnew|]. split; [exact Qoff|]. split; [exact Qpres|].
+      intros Hlen Hnz. apply Qen.
+      + rewrite Hlen1. lia.
+      + rewrite Hlen1. replace (3 - length pre)%nat with (S (3 - S (length pre))) in Hnz by lia.
+        clear -Hnz. revert Hnz. generalize (3 - S (length pre))%nat as k. generalize (orc s) as l.
+        induction l as [|x l IHl]; intros k H; [destruct k; constructor|].
+        destruct k as [|k]; [constructor|]. cbn [firstn] in *. inversion H as [|? ? Hx Hr]; subst.
+        constructor; [exact Hx|]. apply IHl. exact Hr.
     - (* the next table is missing: allocate *)
       unfold alloc. destruct (orc s) as [|x r] eqn:Eo.
       { (* oracle exhausted *)
         exists s, E_ALLOC, own. split; [reflexivity|].
-        apply Post_fail; try assumption; try reflexivity. apply same_env_refl. exists 0%nat. rewrite Eo. reflexivity. }
+        apply Post_fail; try assumption; try reflexivity.
+        - apply same_env_refl.
+        - exists 0%nat. rewrite Eo. split; [reflexivity | lia].
+        - rewrite Eo. cbn [length]. intros Hlen _. lia. }
       destruct (N.eqb_spec x 0) as [Hx0|Hx0].
       { exists (set_orc s r), E_ALLOC, own. split; [reflexivity|].
         apply Post_fail; try reflexivity.
         - eapply Inv_pop; eassumption.
         - repeat split.
-        - exists 1%nat. rewrite Eo. reflexivity. }
+        - exists 1%nat. rewrite Eo. split; [reflexivity | lia].
+        - rewrite Eo. intros _ Hnz. replace (3 - length pre)%nat with (S (2 - length pre)) in Hnz by lia.
+          cbn [firstn] in Hnz. inversion Hnz as [|? ? Hx _]. congruence. }
       (* a fresh frame [x] *)
       set (nf := x) in *.
       destruct (inv_fresh _ _ _ _ HI) as [F1 F2].
@@ -480,7 +498,7 @@ Section Level.
       destruct (IH s3 (upd own nf (pre ++ [i])) nf) as (s' & err & own' & Hrun & HQ).
       { split; [exact HI3|]. split; [exact Hf3|]. split; [exact Hpre1 | exact H511]. }
       exists s', err, own'. rewrite Hnext. split; [exact Hrun|].
-      destruct HQ as (QI & Qenv & Qerr & (n & Qn & Qown) & Qfr & Qt & Qlook & Qoth & Qf1 & Qf2 & Qnew & Qoff & Qpres).
+      destruct HQ as (QI & Qenv & Qerr & (n & Qn & Qnb & Qown) & Qfr & Qt & Qlook & Qoth & Qf1 & Qf2 & Qnew & Qoff & Qpres & Qen).
       assert (Hnt: nf <> t) by (intros E; rewrite E, Ho in Hon; discriminate).
       assert (Hupo: forall f, f <> nf -> upd own nf (pre ++ [i]) f = own f).
       { intros f Hne'. unfold upd. destruct (N.eqb_spec f nf); [congruence|reflexivity]. }
@@ -501,7 +519,7 @@ Section Level.
       unfold Post.
       split; [exact QI|]. split; [exact Henv|]. split; [exact Qerr|].
       split.
-      { exists (S n). split; [rewrite Eo; cbn [skipn]; exact Qn|].
+      { exists (S n). split; [rewrite Eo; cbn [skipn]; exact Qn|]. split; [rewrite Hlen1 in Qnb; lia|].
         intros f. destruct (N.eq_dec f nf) as [->|Hfn].
         - right. rewrite Hown'n, Eo. repeat split; try assumption.
           + left. reflexivity.
@@ -590,12 +608,18 @@ Section Level.
         apply (H3s f p j Hq0).
         destruct (N.eq_dec f t) as [Eft|]; [|left; assumption]. right. intros Ej. apply Hoff.
         rewrite Eft, Ho in Hq0. inversion Hq0 as [Ep]. rewrite <- Ep, Ej. exact Hsn. }
-      intros f p j Hq0 Hlp HPj.
-      assert (Hfn: f <> nf) by (intros E; rewrite E, Hon in Hq0; discriminate).
-      assert (Hd: f <> t \/ j <> i).
-      { destruct (N.eq_dec f t) as [Eft|]; [|left; assumption]. right. intros Ej. rewrite Eft, Ej, HPres in HPj. discriminate. }
-      rewrite (Qpres f p j); [apply (H3s f p j Hq0 Hd) | rewrite Hupo by exact Hfn; exact Hq0 | exact Hlp |].
-      rewrite (H3s f p j Hq0 Hd). exact HPj.
+      split.
+      { intros f p j Hq0 Hlp HPj.
+        assert (Hfn: f <> nf) by (intros E; rewrite E, Hon in Hq0; discriminate).
+        assert (Hd: f <> t \/ j <> i).
+        { destruct (N.eq_dec f t) as [Eft|]; [|left; assumption]. right. intros Ej. rewrite Eft, Ej, HPres in HPj. discriminate. }
+        rewrite (Qpres f p j); [apply (H3s f p j Hq0 Hd) | rewrite Hupo by exact Hfn; exact Hq0 | exact Hlp |].
+        rewrite (H3s f p j Hq0 Hd). exact HPj. }
+      intros Hlen Hnz. apply Qen.
+      + rewrite Hlen1. change (orc s3) with r. rewrite Eo in Hlen. cbn [length] in Hlen. lia.
+      + rewrite Hlen1. change (orc s3) with r. rewrite Eo in Hnz.
+        replace (3 - length pre)%nat with (S (3 - S (length pre))) in Hnz by lia.
+        cbn [firstn] in Hnz. inversion Hnz; assumption.
   Qed.
 End Level.
 
